@@ -185,3 +185,364 @@ Proof.
       exact (PT_kind (map sf_ty lf') xs F (flat_kind lf' T3)).
 Qed.
 End Stages.
+
+(* ---------- the specification only reads the leaves it names ---------- *)
+Section SpecExt.
+Variables (E : env) (tags : list str) (sh1 sh2 : shape) (env1 env2 : named).
+Hypothesis A1 : sh_alias sh1 = tags.
+Hypothesis A2 : sh_alias sh2 = tags.
+
+Fixpoint anamed_ty (names : list str) (t : ty) : list (list str * ty) :=
+  match t with
+  | TPtr (TStruct fs _) => anamed_fields names fs
+  | _ => [(names, t)]
+  end
+with anamed_fields (names : list str) (fs : fields) : list (list str * ty) :=
+  match fs with
+  | FNil => []
+  | FCons n tg an t r =>
+      anamed_ty (if an then names else names ++ [n]) t ++
+      (if has_alias tags tg then anamed_ty (names ++ [n ++ alias_field_suffix]) t else []) ++
+      anamed_fields names r
+  end.
+
+Definition agree_on (l : list (list str * ty)) : Prop :=
+  forall ns lt, In (ns, lt) l ->
+    fspec_leaf E sh1 env1 0%N ns lt = fspec_leaf E sh2 env2 0%N ns lt.
+
+Lemma aliased_eq tg : aliased sh1 tg = has_alias tags tg /\ aliased sh2 tg = has_alias tags tg.
+Proof. unfold aliased, has_alias. now rewrite A1, A2. Qed.
+
+Lemma fspec_ext :
+  (forall t, (wf_ty t = true -> forall names, agree_on (anamed_ty names t) ->
+                fspec_ty E sh1 env1 0%N names t = fspec_ty E sh2 env2 0%N names t) /\
+             (forall fs nm, t = TStruct fs nm -> wf_fields fs = true -> forall names, agree_on (anamed_fields names fs) ->
+                fspec_fields E sh1 env1 0%N names fs = fspec_fields E sh2 env2 0%N names fs)) /\
+  (forall fs, wf_fields fs = true -> forall names, agree_on (anamed_fields names fs) ->
+     fspec_fields E sh1 env1 0%N names fs = fspec_fields E sh2 env2 0%N names fs).
+Proof.
+  assert (LEAF : forall t, wf_ty t = true -> under_is_struct t = false -> forall names,
+             agree_on (anamed_ty names t) ->
+             fspec_ty E sh1 env1 0%N names t = fspec_ty E sh2 env2 0%N names t).
+  { intros t W U names Ag.
+    assert (F : forall sh env, fspec_ty E sh env 0%N names t = fspec_leaf E sh env 0%N names t).
+    { intros. destruct t as [| |e| | | | | | |]; try reflexivity. destruct e; try reflexivity. simpl in U. discriminate. }
+    rewrite !F. apply Ag.
+    destruct t as [| |e| | | | | | |]; try (left; reflexivity). destruct e; try (left; reflexivity). simpl in U. discriminate. }
+  apply ty_fields_ind.
+  - intros k nm. split; [intros W; discriminate | intros; discriminate].
+  - intros id pr. split; [intros W; discriminate | intros; discriminate].
+  - intros e [_ IHs]. split; [| intros; discriminate]. intros W names Ag.
+    destruct (wf_leaf_or_struct (TPtr e) W) as [(U & _ & _) | (fs & nm & Eq & Wf)].
+    + now apply LEAF.
+    + inversion Eq; subst e. rewrite !fspec_ty_struct. rewrite (IHs fs nm eq_refl Wf names Ag). reflexivity.
+  - intros e IH nm. split; [| intros; discriminate]. intros W names Ag. now apply LEAF.
+  - intros n e IH. split; [intros W; discriminate | intros; discriminate].
+  - intros k IHk v IHv nm. split; [| intros; discriminate]. intros W names Ag. now apply LEAF.
+  - intros fs IH nm. split; [intros W; discriminate|]. intros fs' nm' Eq W. inversion Eq; subst. now apply IH.
+  - split; [| intros; discriminate]. intros W names Ag. now apply LEAF.
+  - split; [intros W; discriminate | intros; discriminate].
+  - split; [intros W; discriminate | intros; discriminate].
+  - intros _ names _. reflexivity.
+  - intros n tg an t [IHt _] r IHr W names Ag. simpl in W.
+    apply andb_true_iff in W as [W Wr]. apply andb_true_iff in W as [W _]. apply andb_true_iff in W as [Wex Wt].
+    change (fspec_fields E sh1 env1 0%N names (FCons n tg an t r)) with
+      (x <- (if negb (exported n) then Ok (zero t)
+             else p <- fspec_ty E sh1 env1 0%N (if an then names else names ++ [n]) t ;;
+                  if aliased sh1 tg then a <- fspec_ty E sh1 env1 0%N (names ++ [n ++ alias_field_suffix]) t ;; pick n t p a
+                  else Ok p) ;;
+       rest <- fspec_fields E sh1 env1 0%N names r ;; Ok (x :: rest)).
+    change (fspec_fields E sh2 env2 0%N names (FCons n tg an t r)) with
+      (x <- (if negb (exported n) then Ok (zero t)
+             else p <- fspec_ty E sh2 env2 0%N (if an then names else names ++ [n]) t ;;
+                  if aliased sh2 tg then a <- fspec_ty E sh2 env2 0%N (names ++ [n ++ alias_field_suffix]) t ;; pick n t p a
+                  else Ok p) ;;
+       rest <- fspec_fields E sh2 env2 0%N names r ;; Ok (x :: rest)).
+    destruct (aliased_eq tg) as [-> ->].
+    assert (Ag1 : agree_on (anamed_ty (if an then names else names ++ [n]) t)).
+    { intros ns lt Hin. apply Ag. simpl. apply in_or_app. now left. }
+    assert (Ag3 : agree_on (anamed_fields names r)).
+    { intros ns lt Hin. apply Ag. simpl. apply in_or_app. right. apply in_or_app. now right. }
+    rewrite (IHt Wt _ Ag1), (IHr Wr names Ag3).
+    destruct (has_alias tags tg) eqn:Al; [| reflexivity].
+    assert (Ag2 : agree_on (anamed_ty (names ++ [n ++ alias_field_suffix]) t)).
+    { intros ns lt Hin. apply Ag. simpl. rewrite Al. apply in_or_app. right. apply in_or_app. now left. }
+    rewrite (IHt Wt _ Ag2). reflexivity.
+Qed.
+
+Lemma anamed_fields_cons names n tg an t r :
+  anamed_fields names (FCons n tg an t r) =
+  anamed_ty (if an then names else names ++ [n]) t ++
+  (if has_alias tags tg then anamed_ty (names ++ [n ++ alias_field_suffix]) t else []) ++
+  anamed_fields names r.
+Proof. reflexivity. Qed.
+Lemma aleaves_fields_cons n tg an t r :
+  aleaves_fields tags (FCons n tg an t r) =
+  aleaves_ty tags t ++ (if has_alias tags tg then aleaves_ty tags t else []) ++ aleaves_fields tags r.
+Proof. reflexivity. Qed.
+
+Definition split_fields (fs : fields) : Prop :=
+  forall names, anamed_fields names fs = combine (anames_fields tags names fs) (aleaves_fields tags fs) /\
+                length (anames_fields tags names fs) = length (aleaves_fields tags fs).
+
+Lemma anamed_split_aux :
+  (forall t, (forall names, anamed_ty names t = combine (anames_ty tags names t) (aleaves_ty tags t) /\
+                            length (anames_ty tags names t) = length (aleaves_ty tags t)) /\
+             (forall fs nm, t = TStruct fs nm -> split_fields fs)) /\
+  (forall fs, split_fields fs).
+Proof.
+  apply ty_fields_ind; intros; try (split; [intros; split; reflexivity | intros; discriminate]).
+  - destruct H as [_ Hs]. split; [| intros; discriminate]. intros names.
+    destruct t; try (split; reflexivity). simpl. apply (Hs fs name eq_refl).
+  - split; [intros; split; reflexivity|]. intros fs' nm' Eq. inversion Eq; subst. exact H.
+  - intros names. split; reflexivity.
+  - intros names. rewrite anamed_fields_cons, anames_fields_cons, aleaves_fields_cons. destruct H as [H _].
+    destruct (H (if f_anon then names else names ++ [f_name])) as [E1 L1].
+    destruct (H (names ++ [f_name ++ alias_field_suffix])) as [E2 L2]. destruct (H0 names) as [E3 L3].
+    destruct (has_alias tags f_tags).
+    + rewrite E1, E2, E3. rewrite !combine_app by assumption. rewrite !app_length. split; [reflexivity | lia].
+    + cbn [app]. rewrite E1, E3. rewrite combine_app by assumption. rewrite !app_length. split; [reflexivity | lia].
+Qed.
+
+Lemma anamed_split fs names :
+  anamed_fields names fs = combine (anames_fields tags names fs) (aleaves_fields tags fs) /\
+  length (anames_fields tags names fs) = length (aleaves_fields tags fs).
+Proof. apply (proj2 anamed_split_aux). Qed.
+End SpecExt.
+
+(* ---------- by position and by name ---------- *)
+Lemma parallel_assoc E : forall (nss : list (list str)) (lts : list ty) (xs : list val) (trs : list ty),
+  NoDup (map enc0 nss) -> length lts = length nss -> length trs = length nss -> Forall2 (text_ok E) xs lts ->
+  forall ns lt, In (ns, lt) (combine nss lts) ->
+    exists tr x, assoc_s (enc0 ns) (combine (map enc0 nss) (combine trs xs)) = Some (tr, x) /\
+                 assoc_s (enc0 ns) (combine (map enc0 nss) (PT E lts xs)) = Some (ptv E lt x) /\
+                 text_ok E x lt.
+Proof.
+  induction nss as [|ns0 nss IH]; intros lts xs trs Nd L1 L2 F ns lt Hin; [destruct Hin|].
+  destruct lts as [|lt0 lts]; [discriminate|]. destruct trs as [|tr0 trs]; [discriminate|].
+  inversion F as [|x0 ? xs' ? T0 Fr]; subst. simpl in Hin.
+  simpl map in *. inversion Nd as [|? ? Nin Nd']; subst.
+  destruct Hin as [Hh | Ht].
+  - inversion Hh; subst. exists tr0, x0. unfold PT. simpl. rewrite !str_eqb_refl. auto.
+  - assert (Ne : str_eqb (enc0 ns) (enc0 ns0) = false).
+    { destruct (str_eqb (enc0 ns) (enc0 ns0)) eqn:Eq; [| reflexivity]. apply str_eqb_eq in Eq.
+      exfalso. apply Nin. rewrite <- Eq. apply in_map. apply in_combine_l in Ht. exact Ht. }
+    destruct (IH lts xs' trs Nd' ltac:(simpl in L1; lia) ltac:(simpl in L2; lia) Fr ns lt Ht) as (tr & x & P1 & P2 & P3).
+    exists tr, x. unfold PT in *. simpl. rewrite Ne. auto.
+Qed.
+
+Lemma leaf_agree E tags (env1 env2 : named) ns lt tr x :
+  wf_ty lt = true -> leaf_ok lt = true ->
+  @assoc_s tval (enc0 ns) env1 = Some (tr, x) -> @assoc_s tval (enc0 ns) env2 = Some (ptv E lt x) -> text_ok E x lt ->
+  fspec_leaf E (Shape tags (Some 0%N) true false false) env1 0%N ns lt =
+  fspec_leaf E (Shape tags (Some 0%N) false false false) env2 0%N ns lt.
+Proof.
+  intros W L H1 H2 T. unfold fspec_leaf.
+  unfold enc0 in H1, H2. rewrite H1, H2.
+  destruct (ptv E lt x) as [tp vp] eqn:P.
+  assert (N : nspec_ty (Shape tags (Some 0%N) false false false) lt tp vp = Ok vp).
+  { destruct lt as [| |e|e nm| |k v' nm| | | |]; simpl in W, L; try discriminate.
+    - destruct e; try discriminate; reflexivity.
+    - destruct e; try discriminate; reflexivity.
+    - reflexivity. }
+  unfold fleaf. cbn [sh_strcast]. rewrite N.
+  destruct T as [-> | (s & ct & rr & -> & Ct & Pr & [Cv _] & _)].
+  - unfold ptv in P. inversion P; subst. reflexivity.
+  - unfold ptv in P. rewrite Ct, Pr in P. subst rr. unfold cast_target in Ct.
+    assert (Ct' : match lt with TSlice _ _ | TMap _ _ _ => Ok lt | _ => type_elem lt end = Ok ct) by exact Ct.
+    rewrite Ct'. cbn [obind]. rewrite Pr. cbn [obind fst snd]. simpl in Cv. rewrite Cv. reflexivity.
+Qed.
+
+(* ---------- the env chain ---------- *)
+Lemma leaf_ok_of_simple :
+  (forall t, (wf_ty t = true -> simple_ty t = true -> Forall (fun lt => wf_ty lt = true /\ leaf_ok lt = true) (leaves_ty t)) /\
+             (forall fs nm, t = TStruct fs nm -> wf_fields fs = true -> simple_fields fs = true ->
+                Forall (fun lt => wf_ty lt = true /\ leaf_ok lt = true) (leaves_fields fs))) /\
+  (forall fs, wf_fields fs = true -> simple_fields fs = true ->
+     Forall (fun lt => wf_ty lt = true /\ leaf_ok lt = true) (leaves_fields fs)).
+Proof.
+  assert (LEAF : forall t, wf_ty t = true -> leaf_ok t = true -> leaves_ty t = [t] ->
+             Forall (fun lt => wf_ty lt = true /\ leaf_ok lt = true) (leaves_ty t)).
+  { intros t W L Lv. rewrite Lv. constructor; [split; assumption | constructor]. }
+  apply ty_fields_ind.
+  - intros k nm. split; [intros W; discriminate | intros; discriminate].
+  - intros id pr. split; [intros W; discriminate | intros; discriminate].
+  - intros e [_ Hs]. split; [| intros; discriminate]. intros W S.
+    destruct (wf_leaf_or_struct (TPtr e) W) as [(U & Lv & _) | (fs & nm & Eq & Wf)].
+    + apply LEAF; auto. destruct e; simpl in U, S |- *; try discriminate; auto.
+    + inversion Eq; subst. simpl in S |- *. now apply (Hs fs nm).
+  - intros e IH nm. split; [| intros; discriminate]. intros W S. now apply LEAF.
+  - intros n e IH. split; [intros W; discriminate | intros; discriminate].
+  - intros k IHk v IHv nm. split; [| intros; discriminate]. intros W S. now apply LEAF.
+  - intros fs IH nm. split; [intros W; discriminate|]. intros fs' nm' Eq W S. inversion Eq; subst. now apply IH.
+  - split; [| intros; discriminate]. intros W S. discriminate.
+  - split; [intros W; discriminate | intros; discriminate].
+  - split; [intros W; discriminate | intros; discriminate].
+  - intros _ _. constructor.
+  - intros n tg an t [IHt _] r IHr W S. simpl in W, S.
+    apply andb_true_iff in W as [W Wr]. apply andb_true_iff in W as [W _]. apply andb_true_iff in W as [_ Wt].
+    apply andb_true_iff in S as [St Sr].
+    simpl. apply Forall_app. split; [now apply IHt | now apply IHr].
+Qed.
+
+Lemma flat_tail_sc tg : Forall (fun m => is_tagstage m = true) tg -> flat_tail (tg ++ [MStrCast]) = Some true.
+Proof.
+  induction 1 as [|m r Tm _ IH]; [reflexivity|]. simpl app.
+  destruct m; try discriminate; simpl; destruct (r ++ [MStrCast]) eqn:Er; try exact IH;
+    destruct r; discriminate.
+Qed.
+
+Lemma flatten_layer_wf sub tag te lf lf' st :
+  xlate_layer sub (MFlatten tag 0%N te) lf = Ok (lf', st) -> Forall (fun f => wf_sf f = true) lf ->
+  Forall (fun g => wf_sf g = true) lf'.
+Proof.
+  revert lf' st; induction lf as [|f r IH]; intros lf' st H W; simpl in H.
+  - inversion H. constructor.
+  - apply Forall_cons_iff in W as [Wf Wr]. destruct (wf_sf_parts f Wf) as (Wn & _ & _).
+    rewrite Wn in H. simpl in H. dob H outs Hm.
+    rewrite recurse_outs_norec in H by reflexivity. simpl in H. dob H b Hb.
+    destruct b as [lfr str]. simpl in H. injection H as El Est. subst lf'.
+    rewrite map_map. simpl. rewrite map_id. apply Forall_app. split; [| eapply IH; eauto].
+    apply (mangle_inv false (MFlatten tag 0%N te) f outs); auto; [split; [reflexivity | exact I] | discriminate].
+Qed.
+
+Lemma aleaves_incl tags :
+  (forall t, (forall lt, In lt (aleaves_ty tags t) -> In lt (leaves_ty t)) /\
+             (forall fs nm, t = TStruct fs nm -> forall lt, In lt (aleaves_fields tags fs) -> In lt (leaves_fields fs))) /\
+  (forall fs lt, In lt (aleaves_fields tags fs) -> In lt (leaves_fields fs)).
+Proof.
+  apply ty_fields_ind.
+  - intros k nm. split; [intros lt Hin; exact Hin | intros; discriminate].
+  - intros id pr. split; [intros lt Hin; exact Hin | intros; discriminate].
+  - intros e [_ Hs]. split; [| intros; discriminate]. intros lt Hin.
+    destruct e; try exact Hin. simpl in *. now apply (Hs fs name eq_refl).
+  - intros e IH nm. split; [intros lt Hin; exact Hin | intros; discriminate].
+  - intros n e IH. split; [intros lt Hin; exact Hin | intros; discriminate].
+  - intros k IHk v IHv nm. split; [intros lt Hin; exact Hin | intros; discriminate].
+  - intros fs IH nm. split; [intros lt Hin; exact Hin|]. intros fs' nm' Eq. inversion Eq; subst. exact IH.
+  - split; [intros lt Hin; exact Hin | intros; discriminate].
+  - split; [intros lt Hin; exact Hin | intros; discriminate].
+  - split; [intros lt Hin; exact Hin | intros; discriminate].
+  - intros lt Hin. destruct Hin.
+  - intros n tg an t [IHt _] r IHr lt Hin. simpl in *.
+    apply in_app_or in Hin as [Hin|Hin]; [apply in_or_app; left; now apply IHt|].
+    apply in_app_or in Hin as [Hin|Hin].
+    + destruct (has_alias tags tg); [apply in_or_app; left; now apply IHt | destruct Hin].
+    + apply in_or_app. right. now apply IHr.
+Qed.
+
+Lemma PT_conv E lts xs : Forall2 (text_ok E) xs lts -> Forall (fun lt => wf_ty lt = true) lts ->
+  Forall2 conv_ok (PT E lts xs) lts.
+Proof.
+  unfold PT. induction 1 as [|x lt xs' lts' Tx _ IH]; intros Wl; simpl; [constructor|].
+  apply Forall_cons_iff in Wl as [W1 W2]. constructor; [| now apply IH].
+  simpl. destruct Tx as [-> | (s & ct & rr & -> & Ct & Pr & Cv & _)]; simpl.
+  - now apply conv_exact.
+  - rewrite Ct, Pr. exact Cv.
+Qed.
+
+Lemma env_of_combine lf (P : list tval) : length P = length lf ->
+  env_of (combine lf P) = combine (map sf_name lf) P.
+Proof.
+  unfold env_of. revert P; induction lf as [|f r IH]; intros [|p P] L; simpl in *; try discriminate; [reflexivity|].
+  f_equal. apply IH. lia.
+Qed.
+
+Lemma name_fields_pack l xs : name_fields (pack l) xs = combine (map sf_name l) (combine (map sf_ty l) xs).
+Proof.
+  unfold name_fields. rewrite unpack_pack. f_equal. clear. induction l as [|f r IH]; simpl; [reflexivity | now rewrite IH].
+Qed.
+
+Lemma combine_const {A B} (c : A) (l : list B) (xs : list val) : length xs = length l ->
+  combine (map (fun _ => c) l) xs = map (fun x => (c, x)) xs.
+Proof. revert xs; induction l as [|b r IH]; intros [|x xs] L; simpl in *; try discriminate; [reflexivity|]. f_equal. apply IH. lia. Qed.
+
+Theorem env_chain_spec_l : forall fuel E tags tag te tg fs nm tt x filled,
+  Forall (fun m => is_tagstage m = true) tg ->
+  wf_fields fs = true -> simple_fields fs = true -> alias_ok_fields tags fs = true ->
+  translate fuel (MAlias tags :: MFlatten tag 0%N te :: tg ++ [MStrCast]) (TStruct fs nm) = Ok (tt, x) ->
+  Forall2 (text_ok E) filled (aleaves_fields tags fs) ->
+  Some (reverse fuel E (MAlias tags :: MFlatten tag 0%N te :: tg ++ [MStrCast]) x (tt, VStruct filled)) =
+  counterpart_spec E (MAlias tags :: MFlatten tag 0%N te :: tg ++ [MStrCast]) (TStruct fs nm) tt filled.
+Proof.
+  intros fuel E tags tag te tg fs nm tt x filled Tg W S A H Tx.
+  destruct fuel as [|n]; [discriminate|]. cbn [translate unpack_ty] in H.
+  set (sub := fun (m : mangler) (ft : ty) => translate n [m] ft) in *.
+  rewrite xlate_layers_cons in H.
+  destruct (xlate_layer sub (MAlias tags) (unpack fs)) as [[lf1 st1]| |] eqn:X1; cbn [obind fst snd] in H; try discriminate.
+  rewrite xlate_layers_cons in H.
+  destruct (xlate_layer sub (MFlatten tag 0%N te) lf1) as [[lf2 st2]| |] eqn:X2; cbn [obind fst snd] in H; try discriminate.
+  destruct (xlate_layers sub (tg ++ [MStrCast]) lf2) as [[lfk sts]| |] eqn:X3; cbn [obind fst snd] in H; try discriminate.
+  unfold struct_of in H. destruct (has_dup (map sf_name lfk)) eqn:D; [discriminate|].
+  simpl in H. destruct (existsb _ lfk); [discriminate|]. simpl in H. injection H as Et Ex. subst tt x.
+  pose proof (proj1 (wf_fields_forall fs) W) as Wl.
+  assert (S' : simple_fields (pack (unpack fs)) = true) by (now rewrite pack_unpack).
+  assert (A' : alias_ok_fields tags (pack (unpack fs)) = true) by (now rewrite pack_unpack).
+  set (subrev := fun (m : mangler) (sx : xstate) (sv : tval) => reverse n E [m] sx sv).
+  set (lts := aleaves_fields tags fs) in *. set (nss := anames_fields tags [] fs).
+  assert (Lf : length filled = length lts) by (apply (Forall2_length _ _ _ Tx)).
+  (* the flat layer lf2: names, types, flatness *)
+  set (env2 := env_of (combine lf2 (PT E lts filled))).
+  destruct (alias_layer_rev E env2 tags n (subA_all E env2 tags n) (unpack fs) lf1 st1 X1 Wl S' A') as (I1 & I2 & I2' & I3).
+  rewrite pack_unpack in I2'. fold lts in I2'.
+  destruct (flatten_layer_names sub tag te _ _ _ X2 I1) as [Nm Ty]. rewrite I2' in Ty.
+  assert (Nm' : map sf_name lf2 = map enc0 nss).
+  { rewrite Nm. f_equal. pose proof (I2 []) as Q. rewrite pack_unpack in Q. exact Q. }
+  pose proof (flatten_layer_wf sub tag te _ _ _ X2 I1) as W2.
+  assert (Lok : Forall (fun lt => wf_ty lt = true /\ leaf_ok lt = true) lts).
+  { apply Forall_forall. intros lt Hin. apply (proj2 (aleaves_incl tags)) in Hin.
+    pose proof (proj2 leaf_ok_of_simple fs W S) as Q. rewrite Forall_forall in Q. now apply Q. }
+  assert (F2 : Forall flat_f lf2).
+  { apply Forall_forall. intros g Hg. rewrite Forall_forall in W2. destruct (wf_sf_parts g (W2 g Hg)) as (Gn & Gt & _).
+    repeat split; auto. rewrite Forall_forall in Lok. apply Lok. rewrite <- Ty. now apply in_map. }
+  destruct (tail_rev sub E subrev tg Tg lf2 lfk sts X3 F2) as (T1 & T2 & T3 & T4).
+  assert (L2 : length lf2 = length lts) by (rewrite <- Ty; now rewrite map_length).
+  assert (Lp : length (PT E lts filled) = length lf2).
+  { rewrite PT_length by exact Lf. now symmetry. }
+  (* the model *)
+  cbn [reverse xs_layers xs_ty]. cbn [combine]. cbn [rev_layers].
+  assert (U : unpack_value (TStruct (pack lfk) [], VStruct filled) =
+              combine lfk (map (fun x0 => (str_ptr_ty, x0)) filled)).
+  { unfold unpack_value. rewrite unpack_pack. rewrite T3. rewrite combine_const by lia. reflexivity. }
+  rewrite U. rewrite <- Ty in Tx. fold subrev. rewrite (T4 filled Tx). cbn [obind]. rewrite Ty.
+  assert (Hn : NoDup (map fst (env_of ([] ++ combine lf2 (PT E lts filled))))).
+  { simpl. fold env2. unfold env2. rewrite env_of_combine by exact Lp. rewrite map_fst_combine by (rewrite map_length; exact Lp).
+    rewrite <- T1. now apply has_dup_nodup. }
+  assert (Cv : Forall2 conv_ok (map snd (combine lf2 (PT E lts filled))) (map sf_ty lf2)).
+  { rewrite map_snd_combine by exact Lp. rewrite Ty. rewrite Ty in Tx. apply PT_conv; [exact Tx|].
+    eapply Forall_impl; [| exact Lok]. intros a [Ha _]. exact Ha. }
+  pose proof (flatten_stage_rev sub E subrev tag te _ _ _ X2 I1 [] (combine lf2 (PT E lts filled))
+                (map_fst_combine _ _ Lp) Cv Hn) as R.
+  simpl app in R. simpl length in R. rewrite R. cbn [obind]. fold env2.
+  assert (B : Forall (bound env2) (map enc0 (anames_fields tags [] (pack (unpack fs))))).
+  { rewrite pack_unpack. fold nss. apply Forall_forall. intros k Hk. apply assoc_in.
+    unfold env2. rewrite env_of_combine by exact Lp. rewrite map_fst_combine by (rewrite map_length; exact Lp).
+    rewrite Nm'. exact Hk. }
+  pose proof (I3 [] [] B) as R2. simpl app in R2. simpl length in R2.
+  unfold SEG in R2. unfold top_names. unfold fnames in R2. simpl app in R2. fold subrev in R2.
+  rewrite R2. rewrite pack_unpack.
+  (* the specification *)
+  unfold counterpart_spec. cbn [shape_of shape_body]. rewrite (flat_tail_sc tg Tg). cbn [sh_flat].
+  set (env1 := name_fields (pack lfk) filled).
+  assert (Ext : fspec_fields E (Shape tags (Some 0%N) true false false) env1 0%N [] fs =
+                fspec_fields E (Shape tags (Some 0%N) false false false) env2 0%N [] fs).
+  { apply (proj2 (fspec_ext E tags (Shape tags (Some 0%N) true false false) (Shape tags (Some 0%N) false false false)
+                          env1 env2 eq_refl eq_refl) fs W []).
+    intros ns lt Hin. rewrite (proj1 (anamed_split tags fs [])) in Hin. fold nss lts in Hin.
+    assert (Nd : NoDup (map enc0 nss)) by (rewrite <- Nm', <- T1; now apply has_dup_nodup).
+    assert (Ln : length lts = length nss) by (symmetry; apply (proj2 (anamed_split tags fs []))).
+    assert (Lt : length (map sf_ty lfk) = length nss).
+    { rewrite map_length, T2, L2. exact Ln. }
+    rewrite Ty in Tx.
+    destruct (parallel_assoc E nss lts filled (map sf_ty lfk) Nd Ln Lt Tx ns lt Hin) as (tr & x0 & P1 & P2 & P3).
+    assert (Wlt : wf_ty lt = true /\ leaf_ok lt = true).
+    { rewrite Forall_forall in Lok. apply Lok. apply in_combine_r in Hin. exact Hin. }
+    destruct Wlt as [Wlt Llt].
+    apply (leaf_agree E tags env1 env2 ns lt tr x0 Wlt Llt); [| | exact P3].
+    - unfold env1. rewrite name_fields_pack, T1, Nm'. exact P1.
+    - unfold env2. rewrite env_of_combine by exact Lp. rewrite Nm'. exact P2. }
+  fold env1. rewrite Ext.
+  destruct (fspec_fields E (Shape tags (Some 0%N) false false false) env2 0%N [] fs) as [vals| |] eqn:Fv; cbn [obind]; try reflexivity.
+  rewrite (assemble_zipv (unpack fs) vals Wl); [reflexivity|].
+  eapply ffs_length; eassumption.
+Qed.
